@@ -48,6 +48,8 @@ def build_harness():
     lock = os.path.join(HARNESS, "Cargo.lock")
     if not os.path.exists(lock):
         shutil.copy(os.path.join(REPO, "Cargo.lock"), lock)
+    import gen_walker
+    gen_walker.generate()     # typed-accessor walker follows /repo's current asts! table
     env = dict(os.environ)
     env["CARGO_NET_OFFLINE"] = "true"
     t0 = time.time()
